@@ -15,6 +15,8 @@ import (
 var (
 	ErrClosed     = errors.New("the segment file is closed")
 	ErrInvalidCRC = errors.New("invalid crc value, log record maybe corrupted")
+	// ErrIncompleteChunk chunk 的头部或数据超出了可读范围
+	ErrIncompleteChunk = errors.New("incomplete chunk, log record maybe truncated or corrupted")
 )
 
 type FileID = uint32
@@ -325,6 +327,10 @@ func (df *DataFile) readToBuf(blockID uint32, offset uint32, buf *bytebufferpool
 		// 仅解码实际读取到的字节, 缓冲区其余部分为之前读取的残留数据
 		data, chunkType, err := DecodeChunk(block[offset:size])
 		if err != nil {
+			// 按位置读取的记录必须完整
+			if err == ErrIncompleteChunk {
+				err = ErrInvalidCRC
+			}
 			return err
 		}
 		buf.B = append(buf.B, data...)
@@ -344,6 +350,7 @@ type DataReader struct {
 	blockID  uint32
 	offset   uint32
 	blockBuf []byte
+	validEnd int64 // 已完整读取的最后一条记录的结束位置
 }
 
 func (df *DataFile) NewReader() *DataReader {
@@ -418,6 +425,14 @@ func (reader *DataReader) next() ([]byte, *DataPos, error) {
 		// 仅解码实际读取到的字节, 缓冲区其余部分为之前读取的残留数据
 		data, chunkType, err := DecodeChunk(reader.blockBuf[reader.offset:size])
 		if err != nil {
+			// 进程崩溃或断电会在文件末尾留下未写完的记录:
+			// 位于文件最后一个 block 且超出文件末尾的 chunk 视为日志结束而非数据损坏
+			if err == ErrIncompleteChunk && off+int64(size) == fileSize {
+				return nil, nil, io.EOF
+			}
+			if err == ErrIncompleteChunk {
+				err = ErrInvalidCRC
+			}
 			return nil, nil, err
 		}
 		res = append(res, data...)
@@ -426,6 +441,7 @@ func (reader *DataReader) next() ([]byte, *DataPos, error) {
 		// last chunk
 		if chunkType == Full || chunkType == Last {
 			reader.offset += uint32(chunkHeaderSize + len(data))
+			reader.validEnd = off + int64(reader.offset)
 			if reader.offset+chunkHeaderSize >= blockSize {
 				reader.blockID += 1
 				reader.offset = 0
@@ -439,6 +455,27 @@ func (reader *DataReader) next() ([]byte, *DataPos, error) {
 	pos.Size = cnt*chunkHeaderSize + uint32(len(res))
 
 	return res, pos, nil
+}
+
+// ValidEnd 返回已完整读取的最后一条记录的结束位置
+func (reader *DataReader) ValidEnd() int64 {
+	return reader.validEnd
+}
+
+// Truncate 丢弃 size 之后的内容, 用于恢复时去除文件末尾未写完的记录
+func (df *DataFile) Truncate(size int64) error {
+	if df.closed {
+		return ErrClosed
+	}
+	if size >= df.Size() {
+		return nil
+	}
+	if err := df.ReadWriter.Truncate(size); err != nil {
+		return err
+	}
+	df.lastBlockID = uint32(size / blockSize)
+	df.lastBlockSize = uint32(size % blockSize)
+	return nil
 }
 
 func (df *DataFile) Size() int64 {
